@@ -363,6 +363,18 @@ fn main() {
     // `--runs` is accepted for protocol compatibility; the workload is definitions x draws
     let _ = args.num("runs", 0);
 
+    if let Some(path) = args.get("emit-crate") {
+        // derive leg (run by ./check): definitions that compile as they stand and that the code generator accepts
+        let mut enums = Vec::new();
+        for d in defsrc::compilable_definitions(seed, n_random) {
+            let out = simulated_thread(&d.source, [1; 16]);
+            if matches!(&out.gen, Ok(g) if !g.contains("compile_error")) {
+                enums.push(json!({"id": d.id, "source": d.source}));
+            }
+        }
+        write_json(path, &json!({"prelude": defsrc::COMPILABLE_PRELUDE, "enums": enums}));
+        return;
+    }
     let defs = all_definitions(&repo, seed, n_random);
     if let Some(id) = args.get("dump") {
         // debugging aid: print one definition and the head of what generate() makes of it
